@@ -4,6 +4,8 @@ from io import BytesIO
 from .. import gen, bridge
 from ..ref import bip32 as rb32, secp, base58 as rb58
 
+from ..core import refused
+
 PROP = "C07"
 LEVEL = "exploration"
 SHARDS = {"quick": 8, "thorough": 16}
@@ -221,23 +223,28 @@ def judge_unknown_version(ctx, case):
             q()
         except Exception:  # noqa
             pass
+    # the caller edits the lists it was handed (they are the caller's): e.g. builds its own "supported" list in place
+    if ver % 3 == 0:
+        for getter in (Version.mainnet_versions, Version.testnet_versions, Version.prv_versions, Version.pub_versions):
+            try:
+                lst = getter()
+                lst.append(ver)
+            except Exception:  # noqa
+                pass
     try:
         if Version.valid_version(version=ver):
             bad.append(("valid_version.true_after_queries", False, True))
     except Exception:  # noqa
         pass
-    try:
-        v = Version.parse(version_int=ver)
-        bad.append(("Version.parse.accepted", "raise", str((v.key_type, v.bip_type, v.testnet))))
-    except Exception:  # noqa
-        pass
+    # (refusals must be stable: every one is asked three times in a row)
+    ok, v, outcome = refused(lambda: Version.parse(version_int=ver))
+    if not ok:
+        bad.append(("Version.parse.accepted", "raise", "%s %s" % (outcome, (v.key_type, v.bip_type, v.testnet))))
     for private in (True, False):
         S = rb58.encode_check(xk.payload(ver, private))
-        try:
-            w = BaseWallet.from_extended_key(extended_key=S)
-            bad.append(("from_extended_key.accepted", "raise", {"testnet": w.testnet, "watch_only": w.watch_only}))
-        except Exception:  # noqa
-            pass
+        ok, w, outcome = refused(lambda: BaseWallet.from_extended_key(extended_key=S))
+        if not ok:
+            bad.append(("from_extended_key.accepted", "raise", {"testnet": w.testnet, "watch_only": w.watch_only, "attempt": outcome}))
     return ctx.judge("unknown_version", not bad, case, "raise", bad, cls="unknown|" + case["vtag"], mech="C07.unknown_version." + (bad[0][0] if bad else ""))
 
 
